@@ -45,9 +45,8 @@ def le(n, k):
     return [(n >> (8 * i)) & 0xff for i in range(k)]
 
 
-def dsq_files(tag, alphatype, recs, amino):
+def dsq_files(tag, alphatype, recs, amino, magic=0xc4d3d1b1):
     """independent re-statement of the documented dsqdata layout (header fields, index records, metadata, packets)"""
-    magic = 0xc4d3d1b1
     idx = le(magic, 4) + le(tag, 4) + le(alphatype, 4) + le(0, 4)
     idx += le(max([len(r[0]) for r in recs] + [0]), 4) + le(max([len(r[1]) for r in recs] + [0]), 4) + le(max([len(r[2]) for r in recs] + [0]), 4)
     idx += le(max([len(r[4]) for r in recs] + [0]), 8) + le(len(recs), 8) + le(sum(len(r[4]) for r in recs), 8)
@@ -104,19 +103,25 @@ class C12(Prop):
         "loader_nload_largest_prefix", "loader_chunks_partition", "dsq_chunks_are_the_database", "pipe_order", "pipe_eof_after_all", "pipe_lanes", "pipe_no_deadlock", "pipe_no_lost_wakeup", "pipe_eof_delivered", "pipe_buffers",
         "dsq_open_written", "dsq_bytes_round_trip", "dsq_bytes_round_trip_defaults", "dsq_open_corrupt_header", "dsq_stub_tag",
         "dsq_threaded_read_is_database", "open_rejects", "read_written_database", "chunk_ownership_exclusive", "pipe_lock_discipline",
-        "codec_chunk_layout", "codec_unpack_smem", "codec_pack_unpack_smem")]
+        "codec_chunk_layout", "codec_unpack_smem", "codec_pack_unpack_smem", "dsq_chunks_unpack_in_place", "codec_pack_smem")]
     claimed = True
     level_text = ("Theorems for every schedule of one reader and any number of workers (one atomic step per mutex-protected region, spurious wake-ups allowed): "
                   "conservation and exclusivity of blocks, FIFO on both queues (history variables), counters in range and pendingWorkers = number of sleepers, "
-                  "no lost wake-up for workers and reader, overflow unreachable, a woken worker gets the head block. Codec: unpack(pack d) = d for all sequences with "
-                  "codes <= 30 in 5-bit and mixed 2/5-bit packing (length 0 included), packet-count bounds, EOD exactly on the last packet, whole-chunk round trip. "
-                  "Tie: exact differential run (codec, loader chunking through write/read-back, sequential queue ops) and validation of logged multi-threaded traces "
-                  "against the model; monitors on the implementation's observable behaviour (round trip, chunk order/contiguity/maximality, every consumer gets EOF, "
-                  "no deadlock within a watchdog).")
+                  "no lost wake-up for workers and reader, overflow unreachable, a woken worker gets the head block. dsqdata: codec round trip for all sequences with "
+                  "codes <= 30 (5-bit and mixed packing, length 0 included); packing and unpacking IN PLACE at byte level equal the functional codec (no access outside "
+                  "the buffer, nothing overwritten before it is read); the four files of esl_dsqdata_Write as byte strings, Open's validation incl. every refusal, the "
+                  "loader's freads and chunking; read_written_database: Write -> files -> Open -> threaded Read returns exactly the database, in order, chunk by "
+                  "chunk, then EOF, for every database / chunk limits / unpacker and consumer count / schedule; pipeline order, EOF, no deadlock, no lost wake-up, "
+                  "buffer conservation; chunk_ownership_exclusive (every chunk buffer has exactly one owner) and pipe_lock_discipline (shared fields change only "
+                  "under their mutex, private variables only in their thread). esl_threads start barrier. Tie: exact differential run (codec, in-place buffers, file "
+                  "bytes, Open on corrupted files, sequential queue ops) and validation of logged multi-threaded traces against the models, incl. the mutexes held "
+                  "in every region and the owner of every chunk touched outside a mutex.")
     level_note = ("Trusted: Lean kernel + propext/Classical.choice/Quot.sound; fidelity of the hand models is checked by differential run / trace validation, not proved; "
-                  "pthread semantics and data-race freedom are assumed (atomic step per critical section); caller contract of the queue stated as `Admissible`. "
-                  "Not theorems: the byte-level memory model of smem (the in-place pack / unpack safety theorems are stated on read/write positions), esl_dsqdata_Open/Write file "
-                  "handling, the esl_workqueue_queuelock_* variants (unfinished code, not covered).")
+                  "pthread semantics (mutual exclusion, condition variables with spurious wake-ups) are modelled, not verified. Data-race freedom in the pthread memory "
+                  "model is NOT a theorem: what is proved is its interleaving-model counterpart - ownership exclusivity and the write-frame lock discipline; that a step "
+                  "READS only fields whose mutex it holds is by construction of the model's steps (not a separate theorem) and is checked on observed traces (held-mutex "
+                  "sets, snapshots under the mutex equal the model state, digests of parked chunks unchanged). Caller contract of the queue stated as `Admissible`. "
+                  "Not covered: the esl_workqueue_queuelock_* variants (unfinished code), fatal-exception paths of the loader (short reads).")
     diverge_is_violation = True
     fault_is_output = True      # a sanitizer abort is an output line; it must coincide with the model's `fault`
     technique = ("Lean 4 proof (transition system of esl_workqueue with one atomic step per mutex-protected region, inductive invariant over "
@@ -126,19 +131,54 @@ class C12(Prop):
     trusted_base = ["hand model of esl_workqueue.c / esl_dsqdata.c codec+loader tied by exact differential run and by trace validation (h_dsqdata.c, ASan+UBSan build)",
                     "pthread semantics: mutual exclusion, condition variables with spurious wake-ups (modelled, not verified)",
                     "Lean compiler/runtime for the executable driver; gcc; link-time --wrap interception"]
-    assumptions = ["atomic step per critical section is justified by every shared access being under the mutex; checked on observed traces (every snapshot taken "
-                   "under the mutex must equal the model state), not proved; data-race freedom / the pthread memory model is not a theorem",
+    assumptions = ["atomic step per critical section: justified in the model by pipe_lock_discipline / chunk_ownership_exclusive, on the code by the trace check (every "
+                   "logged region must be the model's next step for that thread, with the same held-mutex set, the same protected fields afterwards, and every chunk "
+                   "touched outside a mutex owned by the touching thread); the pthread memory model itself is not formalised",
                    "caller contract of the work queue (Admissible): Init hands in each block once and at most `size` blocks; Reset is not called while a worker "
                    "sleeps in WorkerUpdate (counter-example proved: wq_reset_while_pending_loses_wakeup); one reader thread",
                    "covered C functions: esl_workqueue_{Create,Init,Remove,Reset,Complete,ReaderUpdate,WorkerUpdate}; esl_threads_{Create,AddThread,WaitForStart,Started,"
                    "GetData,GetWorkerCount,Finished,WaitForFinish}; esl_dsqdata_{Open,Read,Recycle,Close,Write}, dsqdata_{loader_thread,unpacker_thread,unpack_chunk,unpack5,unpack2,"
-                   "pack5,pack2,chunk_Create}. Not covered: esl_workqueue_queuelock_*, esl_workqueue_Dump, esl_threads_CPUCount, error/exception paths of Open (bad files)",
-                   "allocation never fails; file system behaves"]
+                   "pack5,pack2,chunk_Create}. Not covered: esl_workqueue_queuelock_*, esl_workqueue_Dump, esl_threads_CPUCount",
+                   "allocation never fails; the file system behaves (fwrite/fread transfer the bytes); host is little-endian (checked by the byte-for-byte comparison)",
+                   "index offsets fit int64 (sum of packets / metadata bytes < 2^63), sequences shorter than 6*eslDSQDATA_CHUNK_MAXPACKET (the writer's own limit)"]
     rule = ("cases = codec ops on boundary-rich digital sequences (valid and out-of-range codes, malformed packet streams), sequential queue op histories, "
             "threaded queue runs (1-6 workers, size 1-8, perturbed schedules) whose logged trace must be a path of the model, and write/read-back of "
-            "generated databases with 1-4 unpackers x 1-4 consumers x chunk limits from 1 sequence / 2 packets; non-trivial = all ops answered ok with "
+            "generated databases with 1-4 unpackers x 1-8 consumers x chunk limits from 1 sequence / the packets of the longest sequence (more consumers than chunks, "
+            "empty database, one giant sequence, tail carry-over), in-place pack/unpack buffers at their exact limits, byte-for-byte file comparison and Open on files "
+            "with every header byte flipped; non-trivial = all ops answered ok with "
             "at least one multi-packet / multi-chunk / multi-step result")
     quick_budget_s = 90
+
+    # ------------------------------------------------------------------ constants regenerated from the working tree
+    def dsq_consts(self, ctx):
+        """compile-time constants of esl_dsqdata.[ch] (format magic, default chunk limits, unpacker counts), parsed from the tree under test"""
+        import os
+        h = open(os.path.join(ctx.src, "esl_dsqdata.h")).read()
+        c = open(os.path.join(ctx.src, "esl_dsqdata.c")).read()
+        def define(name):
+            m = re.search(r"^\s*#\s*define\s+%s\s+(\d+)" % name, h, re.M)
+            if not m: raise RuntimeError("esl_dsqdata.h: cannot find #define %s <integer>" % name)
+            return int(m.group(1))
+        def static(name):
+            m = re.search(r"%s\s*=\s*(0x[0-9a-fA-F]+|\d+)\s*;" % name, c)
+            if not m: raise RuntimeError("esl_dsqdata.c: cannot find %s = <integer>;" % name)
+            return int(m.group(1), 0)
+        return {"magic": static("eslDSQDATA_MAGIC_V1"), "magicSwap": static("eslDSQDATA_MAGIC_V1SWAP"),
+                "chunkMaxseq": define("eslDSQDATA_CHUNK_MAXSEQ"), "chunkMaxpacket": define("eslDSQDATA_CHUNK_MAXPACKET"),
+                "unpackers": define("eslDSQDATA_UNPACKERS"), "umax": define("eslDSQDATA_UMAX")}
+
+    def generated(self, ctx):
+        k = self._consts = self.dsq_consts(ctx)
+        doc = {"magic": "eslDSQDATA_MAGIC_V1", "magicSwap": "eslDSQDATA_MAGIC_V1SWAP", "chunkMaxseq": "eslDSQDATA_CHUNK_MAXSEQ",
+               "chunkMaxpacket": "eslDSQDATA_CHUNK_MAXPACKET", "unpackers": "eslDSQDATA_UNPACKERS", "umax": "eslDSQDATA_UMAX"}
+        fmt = lambda n, v: ("0x%08x" % v) if n.startswith("magic") else str(v)
+        body = "".join("/-- `%s` -/\nabbrev %s : Nat := %s\n" % (doc[n], n, fmt(n, k[n])) for n in ("magic", "magicSwap", "chunkMaxseq", "chunkMaxpacket", "unpackers", "umax"))
+        return {"EaselModel/Dsqdata/Consts.lean":
+                "/-! GENERATED from esl_dsqdata.h / esl_dsqdata.c of the working tree by props/c12.py (`SPEC.generated`) - do not edit.\n"
+                "The compile-time constants of the dsqdata format and reader. -/\nnamespace EaselModel.Dsqdata.Consts\n" + body + "end EaselModel.Dsqdata.Consts\n"}
+
+    def K(self, name):
+        return getattr(self, "_consts", None) and self._consts[name] or {"magic": 0xc4d3d1b1, "chunkMaxseq": 4096, "chunkMaxpacket": 262144, "unpackers": 4, "umax": 4}[name]
 
     # ------------------------------------------------------------------ inputs
     def corpus(self, ctx):
@@ -447,7 +487,7 @@ class C12(Prop):
                                      rng.randrange(1, 1 << 30), rng.choice([0, 30]), rng, raw=raw))
             stats["dsqrt"] += 1; stats["dsqrt_seqs"] += len(seqs)
             # (d) the empty database, every unpacker count, many consumers
-            out.append(self.dsq_case("dsq-empty-%d" % rep, rng.choice(["amino", "dna", "rna"]), [], rng.choice([0, 1, 3]), rng.choice([0, 1, 2, 9]), rep + 1, rng.randrange(1, 9),
+            out.append(self.dsq_case("dsq-empty-%d" % rep, rng.choice(["amino", "dna", "rna"]), [], rng.choice([0, 1, 3]), rng.choice([0, 1, 2, 9]), rep % 4 + 1, rng.randrange(1, 9),
                                      rng.randrange(1, 1 << 30), rng.choice([0, 50]), rng, raw=True))
             stats["dsqrt"] += 1
             # (e) tail carry-over with chunk_maxpacket at its minimum (seeded change C12-a): the whole index is read by the first fread
@@ -597,7 +637,7 @@ class C12(Prop):
                 tr = l[l.find(" trace=") + 7:]
                 a, r = kv(op), kv(l[:l.find(" trace=")])
                 i0s = ",".join(c.split(":")[0] for c in r["chunks"].split(",")) if r.get("chunks", "-") != "-" else "-"
-                U = int(a["unpackers"]) or 4
+                U = int(a["unpackers"]) or self.K("unpackers")
                 res = [self.validate(ctx, "dsqtrace U=%d C=%s i0=%s ev=%s" % (U, a["consumers"], i0s, tr))]
                 ctx.stats["trace_steps_validated"] = ctx.stats.get("trace_steps_validated", 0) + tr.count(";") + 1
                 if not res[0].startswith("ok "):
@@ -672,7 +712,7 @@ class C12(Prop):
                 names, accs, descs, ds = lst("names"), lst("accs"), lst("descs"), lst("dsq")
                 tax = [int(x) for x in a["taxids"].split(",")]
                 amino = a["abc"] == "amino"
-                idx, md, sq = dsq_files(int(r["tag"]), {"amino": 3, "dna": 2, "rna": 1}[a["abc"]], list(zip(names, accs, descs, tax, ds)), amino)
+                idx, md, sq = dsq_files(int(r["tag"]), {"amino": 3, "dna": 2, "rna": 1}[a["abc"]], list(zip(names, accs, descs, tax, ds)), amino, self.K("magic"))
                 for nm, want in (("dsqi", idx), ("dsqm", md), ("dsqs", sq)):
                     if r[nm] != hx(want):
                         return Failure("monitor", "esl_dsqdata_Write: file %s differs from the documented layout (python oracle): got %s… want %s…" % (nm, r[nm][:120], hx(want)[:120]))
@@ -687,13 +727,17 @@ class C12(Prop):
                 if not muts and (a["expect"] in ("none", a["abc"])):
                     if not l.startswith("open-ok ") or kv(l).get("nseq") != str(nseq):
                         return Failure("monitor", "Open/read of an intact database failed: %r" % l[:200])
-                if any(m[0] != "stub" and m[1] != "trunc" and int(m[1]) < 8 for m in muts) or any(m[0] != "stub" and m[1] == "trunc" and int(m[2]) < 8 for m in muts):
+                net = {}        # two flips of the same byte may cancel: what counts is the net change of each header byte
+                for m in muts:
+                    if m[0] != "stub" and m[1] != "trunc": net[(m[0], int(m[1]))] = net.get((m[0], int(m[1])), 0) ^ int(m[2])
+                truncs = [m for m in muts if m[0] != "stub" and m[1] == "trunc"]
+                if any(off < 8 and x != 0 for (f_, off), x in net.items()) or any(int(m[2]) < 8 for m in truncs):
                     if not l.startswith("open-eformat "):
                         return Failure("monitor", "a corrupted / missing magic or tag was not answered eslEFORMAT: mut=%s -> %r" % (a["mut"], l[:200]))
             elif w[0] == "dsqrt":
                 if l.startswith(("fault", "atexit")):
                     return Failure("fault", "threaded read-back died: %s" % l[:200])
-                if a.get("writer") != "raw" and any(len(x) - 1 >= 2 * 6 * 262144 for x in a["dsq"].split(",")):
+                if a.get("writer") != "raw" and any(len(x) - 1 >= 2 * 6 * self.K("chunkMaxpacket") for x in a["dsq"].split(",")):
                     if l != "write-eunimplemented":
                         return Failure("monitor", "esl_dsqdata_Write accepted a sequence of 6*eslDSQDATA_CHUNK_MAXPACKET residues or more: %r" % l[:100])
                     continue
@@ -705,7 +749,7 @@ class C12(Prop):
                     return Failure("monitor", "read-back differs from what was written (dup/miss/bad record, EOF not delivered to every consumer, lock misuse, a parked / consumer-held chunk written to by somebody else, leaked chunk): %r" % l[:300])
                 amino = a["abc"] == "amino"
                 P = [len((pack5 if amino else pack2)(unx(x))) for x in (a["dsq"].split(",") if a["dsq"] != "-" else [])]
-                maxseq, maxpacket = int(a["maxseq"]) or 4096, int(a["maxpacket"]) or 262144      # 0 = the library's defaults
+                maxseq, maxpacket = int(a["maxseq"]) or self.K("chunkMaxseq"), int(a["maxpacket"]) or self.K("chunkMaxpacket")      # 0 = the library's defaults
                 i = 0
                 for ch in (r["chunks"].split(",") if r["chunks"] != "-" else []):
                     i0, n, pn = map(int, ch.split(":"))
